@@ -116,6 +116,7 @@ func props() []prop {
 			DesignRef:   "DESIGN.md §4 C07",
 			Assumptions: with("cancelling the system context before Start is not asserted beyond 'no hang'"),
 			Units: []unit{
+				{Check: "startstopnet", Pkg: "internal/actor", Shards: [2]int{5, 5}, Timeout: [2]time.Duration{10 * min, 40 * min}, CrashKey: "c07-crash", HangKind: "c07-hang", OnlyKinds: []string{"c07-", "harness-"}},
 				{Check: "startstop", Pkg: "internal/actor", Shards: [2]int{8, 16}, Timeout: [2]time.Duration{6 * min, 40 * min}, CrashKey: "c07-crash", HangKind: "c07-hang", OnlyKinds: []string{"c07-", "harness-"}},
 				{Check: "startstopinject", Pkg: "internal/actor", Instr: []string{"internal/actor/system.go"}, Shards: [2]int{8, 16}, Timeout: [2]time.Duration{6 * min, 40 * min}, CrashKey: "c07-crash", HangKind: "c07-hang", OnlyKinds: []string{"c07-", "harness-"}},
 			},
